@@ -75,7 +75,9 @@ def run(chk: Check, model):
         (nm, xin), = l.env_in.items()
         body = l.env_out[nm]
         it = l.iter
-        n_layers = rp.env.get("num_layers", T.NONE)
+        # the number of Dense layers: the count of parameter groups named Dense* (a sum over the actor's keys); the loop runs over one less
+        sums = [x for x in T.walk(it) if x[0] == "call" and x[1] == "sum" and any(y == T.mk_index(S("self.model"), T.const("actor")) for y in T.walk(x))]
+        n_layers = sums[0] if len(sums) == 1 else T.NONE
         ok = it[0] == "call" and it[1] == "range" and len(it[2]) == 1 and T.sub(n_layers, it[2][0]) == T.ONE and n_layers[0] == "call" and n_layers[1] == "sum"
         chk.add("C20.layers", "Policy: all Dense layers but the last are hidden layers", ok and l.pre.get(nm) == S("norm_obs"), f"hidden loop runs over {T.show(it)[:120]} with num_layers = {T.show(n_layers)[:60]}, starting from {T.show(l.pre.get(nm, T.NONE))[:40]}", chk.loc(f_p))
         elem = ("elem", it, l.uid)
@@ -98,13 +100,14 @@ def run(chk: Check, model):
     for k in sorted(set(actor_map) & set(policy_map)):
         chk.add("C20.activations", f"'{k}' maps to the same function", actor_map[k] == policy_map[k], f"Actor: {k} -> {actor_map[k]}, Policy: {k} -> {policy_map[k]}", chk.loc(f_p))
     chk.floor("C20.activations", "activation keys", len(actor_map), 4)
+    n_layers_out = n_layers if loops else T.NONE
     ret = T.subst(rp.ret, {S("self.output_activation"): T.const("gaussian")})
     det = T.assume(ret, T.eq(S("rng"), T.NONE, numeric=False), True)
     smp = T.assume(ret, T.eq(S("rng"), T.NONE, numeric=False), False)
     lo = loops[0] if loops else None
     ok = det[0] == "call" and isinstance(det[1], tuple) and det[1][0] == "attr" and det[1][2] == "apply" and T.call_name(det[1][1]) == "flax.linen.Dense" and lo is not None \
         and det[2][1] == S(f"loopout{lo.uid}:{list(lo.env_in)[0]}") \
-        and det[2][0] == ("dict", ((T.const("params"), T.mk_index(T.mk_index(S("self.model"), T.const("actor")), T.mk_call("fstr", [T.const("Dense_"), T.sub(rp.env.get("num_layers", T.NONE), T.ONE)]))),))
+        and det[2][0] == ("dict", ((T.const("params"), T.mk_index(T.mk_index(S("self.model"), T.const("actor")), T.mk_call("fstr", [T.const("Dense_"), T.sub(n_layers_out, T.ONE)]))),))
     chk.add("C20.layers", "Policy output layer: Dense without activation; deterministic action = the mean", bool(ok), f"deterministic output = {T.show(det)[:200]}", chk.loc(f_p))
     ok2 = smp[0] == "call" and isinstance(smp[1], tuple) and smp[1][0] == "attr" and smp[1][2] == "sample" and T.call_name(smp[1][1]) == "distrax.MultivariateNormalDiag" and dict(smp[3]).get("seed") == S("rng")
     if ok2:
